@@ -12,7 +12,7 @@ from __future__ import annotations
 import ast
 
 from mlmverif import cfg as cfgm
-from mlmverif.core import (parent_map, AnalysisError, Ctx, FuncInfo, is_self_attr, norm,
+from mlmverif.core import (kwarg, parent_map, AnalysisError, Ctx, FuncInfo, is_self_attr, norm,
                            unparse, walk_no_nested)
 from mlmverif.props._agg import MERGE_NAMES, model
 from mlmverif.props import c11
@@ -42,7 +42,7 @@ MAX_FNS = {'np.maximum', 'np.max', 'max', 'np.nanmax', 'np.fmax', 'np.amax'}
 
 def run(ctx: Ctx):
   m = model(ctx)
-  for r in (r1, r2, r3, r4, r5, r6, r7, r10, r11, r12):
+  for r in (r1, r2, r3, r4, r5, r6, r7, r10, r11, r12, r13):
     ctx.guard(r, m)
   ctx.include('R-C01-8', 'merge leaves its operand intact and shares no'
               ' mutable state with it (R-C11-1, R-C11-2): a shard state that'
@@ -490,7 +490,8 @@ def r6(ctx: Ctx, m):
 def r7(ctx: Ctx, m):
   rule = 'R-C01-7'
   ctx.rule(rule, 'path coverage: on every normal path through merge that is'
-           ' not an early return guarded by a test of the operand alone, every'
+           ' not an "operand is empty" early return (all-NaN sentinel, or the'
+           ' emptiness of the single container/statistic the class keeps), every'
            ' accumulated field is written (directly, in a loop body, or by a'
            ' resolved self/super callee)')
   n = 0
@@ -500,8 +501,14 @@ def r7(ctx: Ctx, m):
       continue  # inherited: analysed at the defining class
     add = m.method_of(ci, 'add')
     if add is None or m._is_abstract(add):
-      continue
-    if add.qualname == 'CallableMetric.add':
+      # a pure state class (merged by its owner): the statistics are what its
+      # own merge combines on the main path
+      if 'merge' not in ci.methods:
+        continue
+      fields = {f for f, ws in m.eff.field_writes(merge).items()
+                if any(how in ('aug', 'assign', 'mutator', 'delegate') for how, _ in ws)}
+      add = None
+    elif add.qualname == 'CallableMetric.add':
       new = m.method_of(ci, 'new')
       acc = _ctor_fields(m, ci, new) if new is not None and not m._is_abstract(new) else None
       if acc is None:
@@ -512,6 +519,7 @@ def r7(ctx: Ctx, m):
     op = m.operand(merge)
     fields -= _guard_compared(m, ci, merge)
     fields &= set(m.eff.field_writes(merge))
+    n_stats = len(fields)
     g = cfgm.cfg_of(merge.node)
     # fields only ever written under a test of the receiver's own state are
     # "initialise once" configuration (e.g. _multi_input): not path-checked
@@ -564,7 +572,12 @@ def r7(ctx: Ctx, m):
       if a.kind == 'cond' and lab == 'true' and isinstance(b.ast, ast.Return):
         names = {y.id for y in cfgm.node_exprs(a) if isinstance(y, ast.Name)}
         if op in names and 'self' not in names:
-          return False
+          # "the operand is empty": either the all-NaN sentinel of a statistic,
+          # or the emptiness of the ONE container/statistic the class keeps —
+          # testing one of several statistics does not make the others empty
+          txt = unparse(a.ast)
+          if 'isnan' in txt or len(keep) == 1:
+            return False
       return True
 
     n += 1
@@ -820,11 +833,65 @@ def r12(ctx: Ctx, m):
   ctx.floor(rule, 3, n)
 
 
+_REDUCTIONS = {'sum', 'nansum', 'mean', 'nanmean', 'var', 'nanvar', 'std', 'nanstd', 'min', 'max',
+               'nanmin', 'nanmax', 'count_nonzero', 'prod', 'median', 'nanmedian'}
+
+
+def r13(ctx: Ctx, m):
+  rule = 'R-C01-13'
+  ctx.rule(rule, 'the statistics of one batch are reduced along the SAME axis:'
+           ' within an accumulation method, all numpy reductions (sum, nanmean,'
+           ' nanvar, min, max, ...) whose argument is built from one and the same'
+           ' batch variable carry the same `axis` — a per-column mean combined'
+           ' with a whole-batch count gives merge weights that are only right'
+           ' for 1-D input')
+  n = 0
+  for ci in m.classes:
+    for meth in ci.methods.values():
+      groups: dict[str, list] = {}
+      for c in ast.walk(meth.node):
+        if isinstance(c, ast.Call) and isinstance(c.func, ast.Attribute) and c.func.attr in _REDUCTIONS and (
+            unparse(c.func.value) in ('np', 'numpy')) and c.args:
+          base = {y.id for y in ast.walk(c.args[0]) if isinstance(y, ast.Name)} - {'np', 'numpy', 'self'}
+          if len(base) != 1 or any(isinstance(y, ast.Attribute) and is_self_attr(y)
+                                   for y in ast.walk(c.args[0])):
+            continue
+          ax = kwarg(c, 'axis')
+          if ax is None and len(c.args) > 1:
+            ax = c.args[1]
+          groups.setdefault(next(iter(base)), []).append((c, unparse(ax) if ax is not None else None))
+      for var, lst in groups.items():
+        if len(lst) < 2:
+          continue
+        n += 1
+        axes = {a for _, a in lst}
+        if len(axes) == 1:
+          ctx.ok(rule, meth, f'{ci.name}.{meth.name}: {len(lst)} reductions of `{var}` along axis={next(iter(axes))}',
+                 lst[0][0])
+        else:
+          odd = min(lst, key=lambda t: sum(1 for _, a in lst if a == t[1]))
+          ctx.fail(rule, meth, f'{ci.name}.{meth.name}: reductions of `{var}` along one axis',
+                   f'{ci.name}.{meth.name} reduces `{var}` along different axes'
+                   f' ({sorted((unparse(c.func), a) for c, a in lst)}): the statistics'
+                   ' of one batch no longer refer to the same cells, so the weights'
+                   ' used when batches or shards are merged are wrong for'
+                   ' multi-column input (1-D input hides it)', node=odd[0])
+  ctx.floor(rule, 3, n)
+
+
 from mlmverif.selfcheck import B, OK  # noqa: E402
 
 _R = 'aggregates/rolling_stats.py'
 _C = 'aggregates/classification.py'
 VARIANTS = [
+    B('mean-count-over-whole-batch', _R,
+      '        _count=np.sum(~np.isnan(batch), axis=0),\n        _mean=np.nanmean(batch, axis=0),\n        _input_shape=batch.shape if batch.size else (),\n    )',
+      '        _count=np.sum(~np.isnan(batch)),\n        _mean=np.nanmean(batch, axis=0),\n        _input_shape=batch.shape if batch.size else (),\n    )',
+      'R-C01-13', count=1),
+    B('thresholded-merge-skips-on-one-statistic', 'aggregates/retrieval.py',
+      '    assert all(self.thresholds == other.thresholds)\n    self.tp_trues += other.tp_trues',
+      '    assert all(self.thresholds == other.thresholds)\n    if not other.p_trues:\n      return\n    self.tp_trues += other.tp_trues',
+      'R-C01-7'),
     B('reservoir-early-return-skips-count', _R,
       '    self._reservoir.extend(samples[:len_n])\n    i = len_n - 1',
       '    self._reservoir.extend(samples[:len_n])\n    if len(self._reservoir) < self.max_size:\n      return\n    i = len_n - 1',
